@@ -39,6 +39,7 @@ package strategy
 //@ ensures[C07,C08] forall k :: 0 <= k && k < len(result) ==> result[k] == dlast(ac, k + 1)
 //@ ensures[C07,C05] forall k :: 0 <= k && k < len(result) ==> 0 - 1 <= result[k] && result[k] <= 1
 //@ ensures[C07,C05] forall k :: 0 <= k && k < len(result) ==> ((forall j :: 0 <= j && j <= k ==> ac[j] == 0) ==> result[k] == 0)
+//@ ensures[C07] "standing-recommendation-never-falls-back-to-hold" forall k :: 0 <= k && k + 1 < len(result) && result[k] != 0 ==> result[k+1] != 0
 //@ ensures[C03] consumed(ac) == len(ac) && closed(result)
 //@ ensures[C04] forall k :: 0 <= k && k < len(result) ==> hor(result, k) <= hor(ac, k)
 //@ lit#0 invariant last == dlast(ac, calls) && 0 - 1 <= last && last <= 1
@@ -174,6 +175,8 @@ package strategy
 //@ ensures[C07,C05] forall j, k :: 0 <= j && j < len(result) && 0 <= k && k < len(result[j]) && k < warmup(strategies[j]) ==> result[j][k] == 0
 //@ ensures[C04] forall j, k :: 0 <= j && j < len(result) && 0 <= k && k < len(result[j]) && k < len(snapshots) ==> hor(result[j], k) <= hor(snapshots, k)
 //@ ensures[C07] forall a, b :: 0 <= a && a < b && b < len(result) ==> result[a] != result[b]
+//@ ensures[C07] "sources-are-standing-recommendations" forall j, k :: 0 <= j && j < len(result) && 0 <= k && k + 1 < len(result[j]) && result[j][k] != 0 ==> result[j][k+1] != 0
+//@ loop#0 invariant forall j, k :: 0 <= j && j < idx0 && 0 <= k && k + 1 < len(sources[j]) && sources[j][k] != 0 ==> sources[j][k+1] != 0
 //@ loop#0 invariant len(sources) == len(strategies) && len(snapshotsSplice) == len(strategies) && consumed(snapshots) == len(snapshots)
 //@ loop#0 invariant forall j :: idx0 <= j && j < len(strategies) ==> consumed(snapshotsSplice[j]) == 0
 //@ loop#0 invariant forall j :: 0 <= j && j < idx0 ==> sources[j] < nextid && len(sources[j]) >= len(snapshots) && (len(snapshots) >= warmup(strategies[j]) ==> len(sources[j]) == len(snapshots)) && consumed(sources[j]) == 0 && closed(sources[j])
